@@ -331,7 +331,7 @@ def run(ctx):
               # the script itself with --prof-imports: everything its import statements bind is profiled, also the names that follow a name
               # bound before in the same statement
               dict(crafted([('import helper', 'helper.hg(1)'), ('import helper, other as oth2', 'oth2.of(1)'), ('from helper import hf', 'hf(2)'),
-                            ('from helper import hf, HK as HK2', 'HK2().hm(1)')], ['PATH:prog.py']), prof_imports=True),
+                            ('from helper import hf, HK as HKx', 'HKx().hm(1)')], ['PATH:prog.py']), prof_imports=True),
               # a plain import of the package before a from-import out of it
               crafted([('import pkgk', 'pkgk.sf(1)'), ('from pkgk import sib', 'sib.sg(2)'), ('from pkgk.sub import deep as dp', 'dp.df(3)')], ['pkgk.sib', 'pkgk.sub.deep']),
               # look-alike selections: a name that is an imported name minus its last character(s) selects nothing
